@@ -28,11 +28,38 @@
        + 2 eps).
    And the IEEE reading of progress 1 with a repeated last length.
 
-   NOT proved (the property stays PARTIAL): the Lipschitz bound and the vertex
-   hits through lengths[i] / dist in IEEE arithmetic (the division, the
-   multiplication by dist and the interpolation round).  They are monitored
-   by the search oracle of harness/src/c19.rs with an explicit rounding
-   slack. *)
+   Proved in the last section of this file (T19-IEEE; IEEE arithmetic,
+   per segment, under explicit magnitude hypotheses: the two vertices' four
+   coordinates finite with |c| <= 2^20, d0, d1, d finite with
+   0 <= d0 <= d <= d1, the near-zero-segment guard false -- which
+   d1 - d0 >= 2^-51 guarantees):
+     - the position interpolate_vertices computes differs per coordinate
+       from the exact convex combination (the formula of T19b) by at most
+       E19 = 2^-24 (max |c0| |c1| + 3.01 |c1 - c0|) + 2^-125;
+     - hence it is within E19 of the segment, at a distance numerically equal
+       to lengths[i] it is vertex i up to E19, and for two distances on the
+       same segment the positions differ by at most the exact slope times
+       |a - b| plus 2 E19 (per coordinate, and in Euclidean distance with
+       2 (Ex + Ey)).
+
+     - vertex hits through lengths[j] / dist: fl(fl(l_j / dist) * dist) is
+       within Dfrac = 2.001 * 2^-53 * l_j + 2^-1075 (2 dist + 1) of l_j; the
+       transcribed search meets its contract for the IEEE comparisons on
+       finite non-decreasing lengths; and for an interior vertex separated
+       from both neighbours by more than Dfrac the computed position is
+       vertex j up to slope * Dfrac + E19
+       (C19_vertex_fraction_position_partial).
+
+   NOT proved (the property stays PARTIAL): vertex hits through
+   lengths[j] / dist when several vertices' cumulative lengths lie within
+   Dfrac of each other (needs a bound on the accumulated rounding error of
+   the running sums, which is not in this development); the GLOBAL Lipschitz
+   bound across segments in IEEE arithmetic (the per-segment IEEE bound and
+   the exact-arithmetic global bound are there; their combination needs the
+   same accumulated-error bound).  These are monitored by the search oracle of
+   harness/src/c19.rs with the rounding slack 1e-3 + 4e-6 * (magnitude + dist)
+   (4e-6 = 67 * 2^-24), which is wider than the proved per-segment bound
+   (at most 7.02 * 2^-24 * magnitude per coordinate). *)
 From Coq Require Import Reals.
 From Flocq Require Import IEEE754.BinarySingleNaN.
 From RM Require Import Model.ControlPoints Model.Curve Proofs.PositionFacts Proofs.LengthFacts
@@ -502,3 +529,237 @@ Example C19_repeated_last_length_example :
      0%Z :: dump_pos (mkPos (S.of_Z 3) (S.of_Z 4))).
 
 Proof. vm_compute. reflexivity. Qed.
+
+(* ================================================================== *)
+(* T19-IEEE -- rounding error of the position on a segment             *)
+(* ================================================================== *)
+From RM Require Import Proofs.LengthBound Proofs.AdjustIEEEBase Proofs.AdjustIEEE Proofs.InterpIEEE Proofs.InterpIEEEFrac Proofs.AdjustIEEEEx.
+Open Scope Z_scope.
+
+(* the guard of the code is |fl(d0 - d1)| <= f64::EPSILON = 2^-52 (pinned);
+   it is false as soon as d1 - d0 >= 2^-51, and outside it d0 < d1 *)
+Example C19_pin_eps : D.bits D.eps = 4372995238176751616 /\ 4372995238176751616 = 0x3CB0000000000000.
+Proof. vm_compute. split; reflexivity. Qed.
+Theorem C19_eps_value : is_finite D.eps = true /\ B2R D.eps = Raux.bpow Zaux.radix2 (-52).
+Proof. exact eps_R. Qed.
+Print Assumptions C19_eps_value.
+
+Theorem C19_guard_is_false_beyond_two_eps :
+  forall d0 d1 : F64, is_finite d0 = true -> is_finite d1 = true -> (0 <= B2R d0)%R ->
+  (Raux.bpow Zaux.radix2 (-51) <= B2R d1 - B2R d0)%R ->
+  D.le (D.abs (D.sub d0 d1)) D.eps = false.
+Proof. exact guard_false_of_gap. Qed.
+Print Assumptions C19_guard_is_false_beyond_two_eps.
+
+Theorem C19_outside_guard_lengths_differ :
+  forall d0 d1 : F64, is_finite d0 = true -> is_finite d1 = true -> (0 <= B2R d0 <= B2R d1)%R ->
+  D.le (D.abs (D.sub d0 d1)) D.eps = false -> (B2R d0 < B2R d1)%R.
+Proof. exact guard_false_lt. Qed.
+Print Assumptions C19_outside_guard_lengths_differ.
+
+(* the hypotheses and the bound, spelled out: coordinates of the two vertices
+   finite with |c| <= 2^20; d0, d1, d finite with 0 <= d0 <= d <= d1; the guard
+   false.  No bound on the size of the lengths, no lower bound on d1 - d0
+   beyond the guard.  E19 c0 c1 = 2^-24 (max |c0| |c1| + 3.01 |c1 - c0|) + 2^-125 *)
+Theorem C19_ieee_hypotheses :
+  (forall p0 p1 d0 d1 d, interp_hyps p0 p1 d0 d1 d <->
+     bnd32 (px p0) 20 /\ bnd32 (py p0) 20 /\ bnd32 (px p1) 20 /\ bnd32 (py p1) 20 /\
+     is_finite d0 = true /\ is_finite d1 = true /\ is_finite d = true /\
+     (0 <= B2R d0)%R /\ (B2R d0 <= B2R d <= B2R d1)%R /\
+     D.le (D.abs (D.sub d0 d1)) D.eps = false) /\
+  (forall x k, bnd32 x k <-> is_finite x = true /\ (Rabs (B2R x) <= Raux.bpow Zaux.radix2 k)%R) /\
+  (forall c0 c1, E19 c0 c1 =
+     (/ 16777216 * (Rmax (Rabs c0) (Rabs c1) + 3.01 * Rabs (c1 - c0)) + Raux.bpow Zaux.radix2 (-125))%R) /\
+  (forall p, R2 p = (B2R (px p), B2R (py p))).
+Proof. split; [|split; [|split]]; intros; reflexivity. Qed.
+Print Assumptions C19_ieee_hypotheses.
+
+(* T19-IEEE.  Between two vertices, outside the guard: the position
+   interpolate_vertices computes is finite and differs per coordinate from
+   the exact convex combination p0 + (p1 - p0) (d - d0) / (d1 - d0) (interp_R:
+   the same formula over the reals, about which T19b speaks) by at most E19 *)
+Theorem C19_interpolation_ieee_bound :
+  forall path lengths i d p0 p1 d0 d1,
+  nth_error path i = Some p0 -> nth_error path (S i) = Some p1 ->
+  nth_error lengths i = Some d0 -> nth_error lengths (S i) = Some d1 ->
+  interp_hyps p0 p1 d0 d1 d ->
+  exists q, interpolate_vertices path lengths (S i) d = Done q /\
+    is_finite (px q) = true /\ is_finite (py q) = true /\
+    (Rabs (B2R (px q) - interp_R (B2R (px p0)) (B2R (px p1)) (B2R d0) (B2R d1) (B2R d))
+       <= E19 (B2R (px p0)) (B2R (px p1)))%R /\
+    (Rabs (B2R (py q) - interp_R (B2R (py p0)) (B2R (py p1)) (B2R d0) (B2R d1) (B2R d))
+       <= E19 (B2R (py p0)) (B2R (py p1)))%R.
+Proof. exact interpolation_ieee_bound. Qed.
+Print Assumptions C19_interpolation_ieee_bound.
+
+(* the interpolation weight ((d - d0) / (d1 - d0)) as f32: the exact weight W
+   in [0, 1] up to W * 1.001 * 2^-24 + 2^-149 *)
+Theorem C19_weight_ieee_bound :
+  forall d0 d1 d : F64,
+  is_finite d0 = true -> is_finite d1 = true -> is_finite d = true ->
+  (0 <= B2R d0)%R -> (B2R d0 <= B2R d <= B2R d1)%R -> (B2R d0 < B2R d1)%R ->
+  let w := f32_of_f64 (D.div (D.sub d d0) (D.sub d1 d0)) in
+  let W := ((B2R d - B2R d0) / (B2R d1 - B2R d0))%R in
+  is_finite w = true /\ (Rabs (B2R w) <= Raux.bpow Zaux.radix2 1)%R /\ (0 <= W <= 1)%R /\
+  rela (B2R w) W (1.001 * u32)%R (Raux.bpow Zaux.radix2 (-149)).
+Proof. exact weight_rela. Qed.
+Print Assumptions C19_weight_ieee_bound.
+
+Theorem C19_rela_definition :
+  forall c v e a, rela c v e a <-> exists d h, (c = v * (1 + d) + h /\ Rabs d <= e /\ Rabs h <= a)%R.
+Proof. intros. reflexivity. Qed.
+Print Assumptions C19_rela_definition.
+
+(* (a) the computed position is within E19 (per coordinate) of a point of the
+   segment [p0, p1] *)
+Theorem C19_position_near_segment :
+  forall path lengths i d p0 p1 d0 d1,
+  nth_error path i = Some p0 -> nth_error path (S i) = Some p1 ->
+  nth_error lengths i = Some d0 -> nth_error lengths (S i) = Some d1 ->
+  interp_hyps p0 p1 d0 d1 d ->
+  exists q w, interpolate_vertices path lengths (S i) d = Done q /\ (0 <= w <= 1)%R /\
+    (Rabs (B2R (px q) - ((1 - w) * B2R (px p0) + w * B2R (px p1))) <= E19 (B2R (px p0)) (B2R (px p1)))%R /\
+    (Rabs (B2R (py q) - ((1 - w) * B2R (py p0) + w * B2R (py p1))) <= E19 (B2R (py p0)) (B2R (py p1)))%R.
+Proof. exact interpolation_near_segment. Qed.
+Print Assumptions C19_position_near_segment.
+
+(* (b) vertex hit: at a distance numerically equal to the cumulative length of
+   vertex p1 the weight is exactly 1 (C19_weight_one_at_equal_length), the
+   position is fl(p0 + fl(p1 - p0)), and that is the vertex p1 up to E19 *)
+Theorem C19_vertex_hit_ieee_bound :
+  forall path lengths i d p0 p1 d0 d1,
+  nth_error path i = Some p0 -> nth_error path (S i) = Some p1 ->
+  nth_error lengths i = Some d0 -> nth_error lengths (S i) = Some d1 ->
+  interp_hyps p0 p1 d0 d1 d -> B2R d = B2R d1 ->
+  interpolate_vertices path lengths (S i) d = Done (padd p0 (psub p1 p0)) /\
+  (Rabs (B2R (px (padd p0 (psub p1 p0))) - B2R (px p1)) <= E19 (B2R (px p0)) (B2R (px p1)))%R /\
+  (Rabs (B2R (py (padd p0 (psub p1 p0))) - B2R (py p1)) <= E19 (B2R (py p0)) (B2R (py p1)))%R.
+Proof. exact interpolation_vertex_hit. Qed.
+Print Assumptions C19_vertex_hit_ieee_bound.
+
+(* (c) local Lipschitz bound: for two distances a, b on the same segment the
+   computed positions differ by at most the exact slope times |a - b| plus
+   twice the rounding bound -- per coordinate, and in Euclidean distance
+   (with true cumulative lengths |p1 - p0| / (d1 - d0) = 1: the position moves
+   at most |a - b| + 2 (Ex + Ey)) *)
+Theorem C19_local_lipschitz_ieee_bound :
+  forall path lengths i a b p0 p1 d0 d1,
+  nth_error path i = Some p0 -> nth_error path (S i) = Some p1 ->
+  nth_error lengths i = Some d0 -> nth_error lengths (S i) = Some d1 ->
+  interp_hyps p0 p1 d0 d1 a -> interp_hyps p0 p1 d0 d1 b ->
+  let Ex := E19 (B2R (px p0)) (B2R (px p1)) in
+  let Ey := E19 (B2R (py p0)) (B2R (py p1)) in
+  let k := (Rabs (B2R a - B2R b) / (B2R d1 - B2R d0))%R in
+  exists qa qb,
+    interpolate_vertices path lengths (S i) a = Done qa /\
+    interpolate_vertices path lengths (S i) b = Done qb /\
+    (Rabs (B2R (px qa) - B2R (px qb)) <= Rabs (B2R (px p1) - B2R (px p0)) * k + 2 * Ex)%R /\
+    (Rabs (B2R (py qa) - B2R (py qb)) <= Rabs (B2R (py p1) - B2R (py p0)) * k + 2 * Ey)%R /\
+    (edist (R2 qa) (R2 qb) <= edist (R2 p0) (R2 p1) * k + 2 * (Ex + Ey))%R.
+Proof. exact interpolation_local_lipschitz. Qed.
+Print Assumptions C19_local_lipschitz_ieee_bound.
+
+(* the hypotheses are met by C19_nonvacuous's polyline (0,0) (3,4) (8,16),
+   lengths 0, 5, 18, at distance 9 on the second segment ... *)
+Example C19_ieee_hypotheses_example :
+  map D.bits (natural ex_path D.zero) = map D.bits ex_lens /\
+  interp_hyps ex_p1 ex_p2 (D.of_Z 5) (D.of_Z 18) (D.of_Z 9).
+Proof. split; [exact ex_lens_are_natural|exact ex_interp_hyps]. Qed.
+Print Assumptions C19_ieee_hypotheses_example.
+
+(* ... where the theorem says: the computed position is within 1.4e-6 / 3.2e-6 px
+   of the exact point (3 + 20/13, 4 + 48/13); its bit patterns: (4.5384617, 7.692308) *)
+Example C19_ieee_bound_example :
+  (exists q, interpolate_vertices ex_path ex_lens 2 (D.of_Z 9) = Done q /\
+     (Rabs (B2R (px q) - (3 + 5 * (4 / 13))) <= 1.4 / 1000000)%R /\
+     (Rabs (B2R (py q) - (4 + 12 * (4 / 13))) <= 3.2 / 1000000)%R) /\
+  dump_out dump_pos (interpolate_vertices ex_path ex_lens 2 (D.of_Z 9))
+  = [0; S.bits (S.of_decimal false 45384617 (-7)); S.bits (S.of_decimal false 7692308 (-6))].
+Proof. split; [exact ex_interp_bound|exact ex_interp_dump]. Qed.
+Print Assumptions C19_ieee_bound_example.
+
+(* ================================================================== *)
+(* vertex hits through lengths[j] / dist -- IEEE arithmetic            *)
+(* ================================================================== *)
+
+(* progress fl(l_j / dist) lies in [0, 1] (no clamping) and the distance
+   fl(fl(l_j / dist) * dist) is within Dfrac = 2.001 * 2^-53 * l_j +
+   2^-1075 (2 dist + 1) of l_j -- about one ulp of l_j -- for finite
+   0 < l_j <= dist <= 2^1023 *)
+Theorem C19_vertex_fraction_distance_ieee :
+  forall (lens : list F64) (lj : F64),
+  let L := Curve.dist lens in
+  is_finite lj = true -> is_finite L = true -> (0 < B2R lj <= B2R L)%R -> (B2R L <= Raux.bpow Zaux.radix2 1023)%R ->
+  let d := progress_to_dist lens (D.div lj L) in
+  is_finite d = true /\ (0 <= B2R d <= B2R L)%R /\ (Rabs (B2R d - B2R lj) <= Dfrac (B2R lj) (B2R L))%R.
+Proof. exact vertex_fraction_distance. Qed.
+Print Assumptions C19_vertex_fraction_distance_ieee.
+
+Theorem C19_vertex_fraction_definitions :
+  (forall lj L, Dfrac lj L = (2.001 * u64 * lj + eta64 * (2 * L + 1))%R) /\
+  u64 = (/ 9007199254740992)%R /\ eta64 = Raux.bpow Zaux.radix2 (-1075) /\
+  (forall lens, sorted_fin lens <->
+     Forall (fun v => is_finite v = true) lens /\
+     forall a b x y, (a <= b)%nat -> nth_error lens a = Some x -> nth_error lens b = Some y -> (B2R x <= B2R y)%R) /\
+  (forall c0 c1 c2 l0 l1 l2 L, Efrac c0 c1 c2 l0 l1 l2 L =
+     Rmax (Rabs (c1 - c0) / (l1 - l0) * Dfrac l1 L + E19 c0 c1)
+          (Rabs (c2 - c1) / (l2 - l1) * Dfrac l1 L + E19 c1 c2)%R) /\
+  (forall p0 p1 p2 l0 l1 l2 L, frac_hyps p0 p1 p2 l0 l1 l2 L <->
+     bnd32 (px p0) 20 /\ bnd32 (py p0) 20 /\ bnd32 (px p1) 20 /\ bnd32 (py p1) 20 /\
+     bnd32 (px p2) 20 /\ bnd32 (py p2) 20 /\
+     is_finite L = true /\ (B2R L <= Raux.bpow Zaux.radix2 1023)%R /\ (0 <= B2R l0)%R /\ (B2R l2 <= B2R L)%R /\
+     (Raux.bpow Zaux.radix2 (-51) <= B2R l1 - B2R l0)%R /\ (Raux.bpow Zaux.radix2 (-51) <= B2R l2 - B2R l1)%R /\
+     (Dfrac (B2R l1) (B2R L) < B2R l1 - B2R l0)%R /\ (Dfrac (B2R l1) (B2R L) < B2R l2 - B2R l1)%R).
+Proof. split; [|split; [|split; [|split; [|split]]]]; intros; reflexivity. Qed.
+Print Assumptions C19_vertex_fraction_definitions.
+
+(* the transcribed std binary search on finite non-decreasing lengths, IEEE
+   comparisons: an element numerically equal to d, or the insertion point *)
+Theorem C19_search_contract_ieee :
+  forall (lens : list F64) (d : F64), sorted_fin lens -> is_finite d = true ->
+  let i := idx_of_dist lens d in
+  (exists x, nth_error lens i = Some x /\ B2R x = B2R d) \/
+  ((forall k x, (k < i)%nat -> nth_error lens k = Some x -> (B2R x < B2R d)%R) /\
+   (forall k x, (i <= k)%nat -> nth_error lens k = Some x -> (B2R d < B2R x)%R)).
+Proof. exact idx_of_dist_contract_ieee. Qed.
+Print Assumptions C19_search_contract_ieee.
+
+(* FULL STATEMENT (not proved): for every vertex j of a computed curve,
+   position_at (lengths[j] / dist) is within an explicit rounding bound of
+   path[j] (or of a vertex carrying the same cumulative length).
+   PROVED PART: an interior vertex whose cumulative length is separated from
+   both neighbours by more than Dfrac (and by at least 2^-51, the guard): the
+   search returns j or j + 1 and the computed position is vertex j up to
+   slope * Dfrac + E19 per coordinate, slope = |c_j - c_{j-1}| / (l_j - l_{j-1})
+   resp. the next segment's.
+   MISSING: (1) clusters of vertices whose cumulative lengths differ by less
+   than Dfrac -- the search may land on another vertex of the cluster, and
+   bounding its distance to vertex j needs "chord <= arc" for the IEEE lengths,
+   i.e. a bound on the accumulated error of the running sums, which this
+   development does not have; (2) the first and the last vertex (covered
+   separately by C19_progress_zero_is_first_vertex and
+   C19_progress_one_repeated_last_length); (3) slope <= 1 + rounding for the
+   lengths calculate_length computes (same missing accumulated-error bound) *)
+Theorem C19_vertex_fraction_position_partial :
+  forall (path : list Pos) (lens : list F64) j p0 p1 p2 l0 l1 l2,
+  let L := Curve.dist lens in
+  nth_error path j = Some p0 -> nth_error path (S j) = Some p1 -> nth_error path (S (S j)) = Some p2 ->
+  nth_error lens j = Some l0 -> nth_error lens (S j) = Some l1 -> nth_error lens (S (S j)) = Some l2 ->
+  sorted_fin lens -> frac_hyps p0 p1 p2 l0 l1 l2 L ->
+  exists q, position_at path lens (D.div l1 L) = Done q /\
+    (Rabs (B2R (px q) - B2R (px p1))
+       <= Efrac (B2R (px p0)) (B2R (px p1)) (B2R (px p2)) (B2R l0) (B2R l1) (B2R l2) (B2R L))%R /\
+    (Rabs (B2R (py q) - B2R (py p1))
+       <= Efrac (B2R (py p0)) (B2R (py p1)) (B2R (py p2)) (B2R l0) (B2R l1) (B2R l2) (B2R L))%R.
+Proof. exact vertex_fraction_position_partial. Qed.
+Print Assumptions C19_vertex_fraction_position_partial.
+
+(* the hypotheses hold for the middle vertex (3,4) of (0,0) (3,4) (8,16),
+   lengths 0, 5, 18: position_at (5 / 18) is (3, 4) up to 1.4e-6 / 3.2e-6 px *)
+Example C19_vertex_fraction_example :
+  sorted_fin ex_lens /\
+  frac_hyps ex_p0 ex_p1 ex_p2 (D.of_Z 0) (D.of_Z 5) (D.of_Z 18) (Curve.dist ex_lens) /\
+  exists q, position_at ex_path ex_lens (D.div (D.of_Z 5) (Curve.dist ex_lens)) = Done q /\
+    (Rabs (B2R (px q) - 3) <= 1.4 / 1000000)%R /\ (Rabs (B2R (py q) - 4) <= 3.2 / 1000000)%R.
+Proof. split; [exact ex_sorted|]. split; [exact ex_frac_hyps|exact ex_frac_bound]. Qed.
+Print Assumptions C19_vertex_fraction_example.
